@@ -464,6 +464,14 @@ func readIni(contents io.Reader, filename string) (*ini, error) {
 
 		name := strings.TrimSpace(keyval[0])
 		value := strings.TrimSpace(keyval[1])
+
+		if len(name) == 0 {
+			return nil, &IniError{
+				Message:    "empty option name",
+				File:       filename,
+				LineNumber: lineno,
+			}
+		}
 		quoted := false
 
 		if len(value) != 0 && value[0] == '"' {
